@@ -50,16 +50,23 @@ template <class Base> struct ExtS : public Session {
     typedef typename Ext::Element Elt;
     typedef typename Ext::Pol_t Pol;
     Base B; Ext* F; Integer P; unsigned long k;
-    ExtS(const std::vector<std::string>& t) : B((typename Base::Residu_t)strtoull(t[3].c_str(), 0, 10)), F(0) {
-        unsigned long p = strtoul(t[3].c_str(), 0, 10); k = strtoul(t[4].c_str(), 0, 10); P = Integer((uint64_t)p);
+    // ext <gfq|mod> <pe|bf|pol|tower> <p> <k> [<s>] : tower = Extension over the non-prime base field GFqDom(p,s), order k
+    static Base mk_base(unsigned long p, unsigned long s, GFqDom<int64_t>*) { return GFqDom<int64_t>((uint64_t)p, (uint64_t)s); }
+    static Base mk_base(unsigned long p, unsigned long, Modular<int64_t>*) { return Modular<int64_t>((int64_t)p); }
+    static std::string base_info(const GFqDom<int64_t>& b) { std::ostringstream o; o << (ll)b.cardinality() << " " << (ll)b.exponent() << " " << (b.exponent() > 1 ? (ll)b.irreducible() : -1) << " " << (ll)b.generator(); return o.str(); }
+    static std::string base_info(const Modular<int64_t>& b) { std::ostringstream o; o << (ll)b.cardinality() << " 1 -1 0"; return o.str(); }
+    ExtS(const std::vector<std::string>& t) : B(mk_base(strtoul(t[3].c_str(), 0, 10), (t[2] == "tower" && t.size() > 5) ? strtoul(t[5].c_str(), 0, 10) : 1, (Base*)0)), F(0) {
+        unsigned long p = strtoul(t[3].c_str(), 0, 10); k = strtoul(t[4].c_str(), 0, 10);
         if (t[2] == "pe") { F = mk_pe(p, k, (Base*)0); }
-        else if (t[2] == "bf") { Ext G(B, (typename Ext::Residu_t)k); Ext H; H = G; F = new Ext(H); }               // operator=
+        else if (t[2] == "bf" || t[2] == "tower") { Ext G(B, (typename Ext::Residu_t)k); Ext H; H = G; F = new Ext(H); }               // operator=
         else {
             std::vector<std::vector<std::string> > parts = split_bar(t, 5);
             Pol PD(B, "Y"); typename Pol::Element irr(parts[1].size());
             for (size_t i = 0; i < parts[1].size(); ++i) B.init(irr[i], (int64_t)strtoll(parts[1][i].c_str(), 0, 10));
             Ext G(PD, irr); Ext H; H = G; F = new Ext(H);
         }
+        // coefficients are read and written through the base field the extension really uses
+        B = F->base_field(); Integer cb; B.cardinality(cb); P = cb;
     }
     static Ext* mk_pe(unsigned long p, unsigned long k, GFqDom<int64_t>*) { Ext G((typename Ext::Residu_t)p, (typename Ext::Residu_t)k); return new Ext(G); }  // copy ctor
     static Ext* mk_pe(unsigned long, unsigned long, Modular<int64_t>*) { return 0; }     // Extension<Modular>(p,e) does not exist
@@ -77,7 +84,7 @@ template <class Base> struct ExtS : public Session {
     std::string describe() {
         std::ostringstream o; Integer ci, chi; F->cardinality(ci); F->characteristic(chi);
         o << "E " << (ll)F->cardinality() << " " << ci << " " << (ll)F->characteristic() << " " << chi << " " << (ll)F->exponent() << " " << (ll)F->order()
-          << " I " << val(F->irreducible()) << " Z " << val(F->zero) << " " << val(F->one) << " " << val(F->mOne);
+          << " I " << val(F->irreducible()) << " Z " << val(F->zero) << " " << val(F->one) << " " << val(F->mOne) << " B " << base_info(B);
         return o.str();
     }
     std::string line(const std::vector<std::string>& t) {
